@@ -28,8 +28,10 @@ def gen_feed(rng):
     if r < 0.55:
         m, t = rng.choice([(0, 0), (1, 1), (2, 1), (1, 2), (2, 2), (3, 0), (0, 3)])
         return f"F:s:{m}:{t}"
-    if r < 0.6:
+    if r < 0.58:
         return "F:u"
+    if r < 0.6:
+        return f"F:v:{rng.choice([1, 2, 2])}:{rng.choice([0, 0, 1, 3])}"
     if r < 0.65:
         return rng.choice(["F:o:86", "F:o:0"])
     if r < 0.8:
@@ -102,12 +104,13 @@ def run_impl(h, stop_when_closed=True, after_event=None):
                                open_tids=list(r.open_tids), dev_ids={a: id(d) for a, d in r.devices.items()},
                                data_ids={a: id(r.protocol.data.get(connrun.ADDR_NAME[a])) for a in r.devices
                                          if connrun.ADDR_NAME[a] in r.protocol.data},
-                               gate_closed=bool(r.gate_waiting), fed=list(r.fed),
+                               gate_closed=bool(r.gate_waiting), fed=list(r.fed), rdepth=reconnect_depth(r),
                                rqsize=(r.read_queue().qsize() if r.read_queue() is not None else 0)))
             if after_event is not None:
                 after_event(r, i, e)
-            if error or (stop_when_closed and r.close_task is not None and r.close_task.done()):
-                break
+            if error or (stop_when_closed and r.close_task is not None and r.close_task.done()
+                         and not any(t.split(":")[0] in ("C", "Z") for t in events[i + 1:])):
+                break  # (a later connect() / close() uses the closed connection object again)
         info = dict(writers_closed=[w.closed for w in r.conn.writers], opens=list(r.conn.opens),
                     close_chain=connrun.coro_chain(r.close_task) if r.close_task is not None and not r.close_task.done() else None,
                     quiescent=r.loop.quiescent(), next_timer=r.loop.next_timer(),
@@ -116,6 +119,18 @@ def run_impl(h, stop_when_closed=True, after_event=None):
     finally:
         r.finish()
     return segs, extras, info
+
+
+def reconnect_depth(r):
+    """await-chain depth of the task that runs the reconnect routine (0: none): the machine's back-off state is the SAME state
+    after every failed attempt, so the pending coroutine chain must be too"""
+    import asyncio
+
+    d = 0
+    for t in asyncio.all_tasks(r.loop):
+        if not t.done() and t not in r.own and getattr(getattr(t.get_coro(), "cr_code", None), "co_name", "") == "_reconnect":
+            d = max(d, len(connrun.coro_chain(t)))
+    return d
 
 
 def model_batch(hists):
